@@ -233,7 +233,7 @@ theorem rotateSizes_mult_pos (U : M3 Int) :
   simp only [Size.mult]
   omega
 
-theorem offset_range (b : Box K) (p : V3 K) (hp : InCell (b.cartToRel p)) :
+theorem offset_range (b : Box K) (p : V3 K) (hp : InBox (b.cartToRel p)) :
     (0 ≤ (offset b p).x ∧ (offset b p).x < 2) ∧ (0 ≤ (offset b p).y ∧ (offset b p).y < 2) ∧
     (0 ≤ (offset b p).z ∧ (offset b p).z < 2) := by
   obtain ⟨a1, a2, a3, a4, a5, a6⟩ := hp
@@ -292,7 +292,7 @@ theorem shiftOf_injective (U : M3 Int) : Function.Injective (shiftOf U) := by
 
 /-- **count**: an atom inside the box has exactly `|det U|` images kept by `rotateRaw`. -/
 theorem imagesOf_length (fl : K → Int) (hfl : ∀ x, fl x = ⌊x⌋) (b : Box K) (hV : M3.det b.vects ≠ 0) (U : M3 Int)
-    (hU : M3.det U ≠ 0) (a : Atom K) (ha : InCell (b.cartToRel a.pos)) :
+    (hU : M3.det U ≠ 0) (a : Atom K) (ha : InBox (b.cartToRel a.pos)) :
     (imagesOf fl b U a).length = (M3.det U).natAbs := by
   classical
   rw [← rep_card U hU (offset b a.pos)]
@@ -334,7 +334,7 @@ theorem rotateRaw_perm (fl : K → Int) (b : Box K) (U : M3 Int) (atoms : List (
     rfl
 
 theorem rotateRaw_length (fl : K → Int) (hfl : ∀ x, fl x = ⌊x⌋) (b : Box K) (hV : M3.det b.vects ≠ 0) (U : M3 Int)
-    (atoms : List (Atom K)) (hin : ∀ a ∈ atoms, InCell (b.cartToRel a.pos)) (nb : Box K) (kept : List (Atom K))
+    (atoms : List (Atom K)) (hin : ∀ a ∈ atoms, InBox (b.cartToRel a.pos)) (nb : Box K) (kept : List (Atom K))
     (h : rotateRaw fl b U atoms = some (nb, kept)) :
     kept.length = (M3.det U).natAbs * atoms.length := by
   have hU : M3.det U ≠ 0 := by
@@ -378,7 +378,7 @@ theorem imagesOf_nodup (fl : K → Int) (hfl : ∀ x, fl x = ⌊x⌋) (b : Box K
 /-- **completeness**: every periodic image `a.pos + n·V` (`n ∈ ℤ³`) of an atom inside the box that lies in the
     new half-open cell is among the kept images (the bounding supercell misses none). -/
 theorem imagesOf_complete (fl : K → Int) (hfl : ∀ x, fl x = ⌊x⌋) (b : Box K) (hV : M3.det b.vects ≠ 0) (U : M3 Int)
-    (hU : M3.det U ≠ 0) (a : Atom K) (ha : InCell (b.cartToRel a.pos)) (n : V3 Int)
+    (hU : M3.det U ≠ 0) (a : Atom K) (ha : InBox (b.cartToRel a.pos)) (n : V3 Int)
     (hq : InCell ((⟨newVects U b.vects, ⟨0, 0, 0⟩⟩ : Box K).cartToRel (a.pos + M3.vecMul (castV n) b.vects))) :
     ∃ a' ∈ imagesOf fl b U a, a'.pos = a.pos + M3.vecMul (castV n) b.vects ∧ a'.atype = a.atype ∧ a'.extra = a.extra := by
   -- the integer shift of `rotateRaw`
